@@ -201,7 +201,25 @@ def gen_yinargs():
     r2 = re.search(r"\(\*element\)->kw\s*==\s*LY_STMT_ARG_TEXT\s*\)\s*\{\s*\(\*element\)->kw\s*=\s*LY_STMT_NONE\s*;", gen)
     if bool(r1) != bool(r2) or (not r1 and "LY_STMT_ARG_" in gen):
         raise minic.Unsupported("yin_parse_element_generic: unexpected handling of LY_STMT_ARG_VALUE / LY_STMT_ARG_TEXT")
+    # candidate repairs of F342 / F341 (fixes/F342.diff, fixes/F341.diff)
+    mk = ys.func_body(pa, "yin_match_keyword")
+    exact = re.search(r'name_len\s*==\s*ly_strlen_const\("text"\)\s*\)\s*&&\s*\(\s*strncmp\(start,\s*"text",\s*name_len\)\s*==\s*0', mk)
+    if not exact and not re.search(r'if\s*\(\s*strncmp\(start,\s*"text",\s*name_len\)\s*==\s*0\s*\)', mk):
+        raise minic.Unsupported("yin_match_keyword: the test for the argument element `text` changed")
+    st1 = re.search(r"if\s*\(ctx->xmlctx->value_len\)\s*\{\s*if\s*\(\(\*element\)->kw\s*!=\s*LY_STMT_EXTENSION_INSTANCE\)\s*\{[^}]*ret\s*=\s*LY_EVALID;\s*goto cleanup;", gen)
+    st2 = re.search(r"lyxml_ctx_next\(ctx->xmlctx\),\s*cleanup\);\s*if\s*\(ctx->xmlctx->status\s*!=\s*LYXML_ELEM_CLOSE\)\s*\{[^}]*ret\s*=\s*LY_EVALID;\s*goto cleanup;", gen)
+    st3 = re.search(r"load closing tag of subelement|LY_CHECK_RET\(lyxml_ctx_next\(ctx->xmlctx\)\);\s*if\s*\(ctx->xmlctx->status\s*!=\s*LYXML_ELEM_CLOSE\)\s*\{[^}]*return LY_EVALID;",
+                    ys.func_body(pa, "yin_parse_extension_instance_arg"))
+    st3 = re.search(r"LY_CHECK_RET\(lyxml_ctx_next\(ctx->xmlctx\)\);\s*if\s*\(ctx->xmlctx->status\s*!=\s*LYXML_ELEM_CLOSE\)\s*\{[^}]*return LY_EVALID;",
+                    ys.func_body(pa, "yin_parse_extension_instance_arg"))
+    if bool(st1) != bool(st2) or bool(st1) != bool(st3):
+        raise minic.Unsupported("yin_parse_element_generic: text-content checks only partly present")
     out = [ex.HEADER, "import LyModel.Base", "namespace LyModel.Generated\n"]
+    out.append("/-- parser_yin.c, yin_match_keyword: the argument element must be spelled `text` exactly (repair of F342); `false`: every")
+    out.append("    name the keyword trie does not consume and that is a prefix of `text` (`strncmp(start, \"text\", name_len)`) -/")
+    out.append("def yinTextExact : Bool := %s\n" % ("true" if exact else "false"))
+    out.append("/-- parser_yin.c, yin_parse_element_generic: text content of a YANG statement element and mixed content are refused (repair of F341) -/")
+    out.append("def yinTextStrict : Bool := %s\n" % ("true" if st1 else "false"))
     out.append("/-- parser_yin.c, yin_parse_element_generic: an element matched as `LY_STMT_ARG_VALUE` is read as a `value` statement and one")
     out.append("    matched as `LY_STMT_ARG_TEXT` is refused as unknown (repair of F340); `false`: both end in `LOGINT` -/")
     out.append("def yinArgRemap : Bool := %s\n" % ("true" if r1 else "false"))
